@@ -29,6 +29,7 @@ CONSTANTS
   MaxBaseAdv = {baseadv}
   OpSet = {ops}
   ForkFdis = {forkfdis}
+  TombRename = {tombrename}
   MatchMode = "{mode}"
 INVARIANTS {inv}
 {view}CHECK_DEADLOCK FALSE
@@ -41,12 +42,13 @@ def tla_set(xs):
 
 def cfg(inv, view=False, mode="greedy", **kw):
     d = dict(npaths=1, kinds=["rec"], names=["n1", "n2"], bodies=["v1", "v2"], labs=["l1", "l2"], cmts=["none"],
-             pads=[0], maxrules=3, maxfork=2, commits=2, baseadv=0, ops=ALL_OPS, forkfdis=False)
+             pads=[0], maxrules=3, maxfork=2, commits=2, baseadv=0, ops=ALL_OPS, forkfdis=False, tombrename=False)
     d.update(kw)
     return CFG.format(npaths=d["npaths"], kinds=tla_set(d["kinds"]), names=tla_set(d["names"]),
                       bodies=tla_set(d["bodies"]), labs=tla_set(d["labs"]), cmts=tla_set(d["cmts"]),
                       pads=tla_set(d["pads"]), maxrules=d["maxrules"], maxfork=d["maxfork"], commits=d["commits"],
                       baseadv=d["baseadv"], ops=tla_set(d["ops"]), forkfdis="TRUE" if d["forkfdis"] else "FALSE",
+                      tombrename="TRUE" if d["tombrename"] else "FALSE",
                       mode=mode, inv=inv, view="VIEW MCView\n" if view else "")
 
 
@@ -130,6 +132,34 @@ def judge(ctx, tpath, trace, chunk=4000):
             raise MachineryError("JUDGE consumed %s of %d trace records (chunk %d)" % (done[0][0] if done else "?", len(ch), i))
         out += j["prints"]
     return out
+
+
+def _rule(lab):
+    return {"kind": "rec", "name": "n1", "body": "v1", "lab": lab, "cmt": "none", "pad": 0}
+
+
+def probe_mode(ctx):
+    """Which matchEntries variant does the tree under test implement? One hand-built history (the F5 shape) is run
+    through EXEC; the answer only selects the spec variant used for MC and binding, never a verdict."""
+    absent = {"present": False, "fdis": False, "rules": []}
+    f0 = {"present": True, "fdis": False, "rules": [_rule("l1")]}
+    f1 = {"present": True, "fdis": False, "rules": [_rule("l2"), _rule("l1")]}
+    case = {"fork": {"a.yml": f0, "b.yml": absent, "c.yml": absent, "drafts/d.yml": absent},
+            "log": [{"op": "AddRule", "ns": {"status": "M", "src": "a.yml", "dst": "a.yml"}, "file": f1}]}
+    _, trace = execute(ctx, [case], "probe")
+    fin = [r for r in trace if r["ev"] == "Finish"]
+    if not fin:
+        return "greedy"
+    st = {(m["first"], m["state"]) for m in fin[0]["markers"]}
+    return "twopass" if st == {(4, "added"), (8, "noop")} else "greedy"
+
+
+def run_parallel(jobs, width=8):
+    """jobs: list of zero-argument callables (TLC runs); returns their results in order, re-raising the first failure."""
+    from concurrent.futures import ThreadPoolExecutor
+    with ThreadPoolExecutor(max_workers=width) as ex:
+        futs = [ex.submit(j) for j in jobs]
+        return [f.result() for f in futs]
 
 
 def letters(xs):
